@@ -27,8 +27,8 @@ def step (x : S) (w : List String) : Option (S × String × List String) :=
   match w with
   | ["run", _, _, _] => some ({}, "ok", [])
   | ["flood", _] =>
-    -- BB.Props.C14: every job is taken exactly once and its reply reaches its own caller (the reply slot is a one-place
-    -- buffer: the worker never waits for the caller, the caller never misses the reply), whatever the relative speed
+    -- BB.Props.C14 (reply layer): worker_never_waits_for_the_caller, call_returns_its_own_result_once, no_reply_is_lost —
+    -- the reply slot is a one-place buffer (T1: reply_channel_is_buffered), whatever the relative speed of worker and caller
     some ({}, "hung=false wrong=0 errors=0", ["flood_of_trivial_jobs"])
   | ["call", _g, j, n, c] => do
     let j ← j.toNat?; let n ← n.toNat?; let c ← kv c "count"
